@@ -9,7 +9,8 @@
 //! its output must be one of the outputs reachable through the seams (that shows the seams own the
 //! nondeterminism; it is a sampled, supplementary step).
 use crate::util::*;
-use emmylua_code_analysis::{EmmyLuaAnalysis, verif_hooks};
+use emmylua_code_analysis::{EmmyLuaAnalysis, Emmyrc, WorkspaceFolder, build_workspace_folders, verif_hooks};
+use std::sync::Arc;
 use serde_json::{Value, json};
 use std::collections::{BTreeMap, BTreeSet, HashMap};
 use std::path::{Path, PathBuf};
@@ -91,17 +92,24 @@ fn placement_from_json(w: &Value) -> Option<Placement> {
 }
 
 struct Ws {
+    /// files were written to disk (real `load_workspace`, std library loaded) or exist only in memory
+    on_disk: bool,
+    files: Vec<(PathBuf, String)>,
+    rc: Value,
     main: PathBuf,
     /// module names of all main-workspace files (a file without `return` may or may not be listed)
     main_modules: BTreeSet<String>,
 }
 
-fn make_workspace(dir: &Path, p: &Placement) -> Ws {
-    let _ = std::fs::remove_dir_all(dir);
+fn make_workspace(dir: &Path, p: &Placement, on_disk: bool) -> Ws {
     let main = dir.join("main");
     let lib = dir.join("lib");
-    std::fs::create_dir_all(&main).unwrap_or_else(|e| die(&format!("mkdir {main:?}: {e}")));
-    std::fs::create_dir_all(&lib).unwrap_or_else(|e| die(&format!("mkdir {lib:?}: {e}")));
+    if on_disk {
+        let _ = std::fs::remove_dir_all(dir);
+        std::fs::create_dir_all(&main).unwrap_or_else(|e| die(&format!("mkdir {main:?}: {e}")));
+        std::fs::create_dir_all(&lib).unwrap_or_else(|e| die(&format!("mkdir {lib:?}: {e}")));
+    }
+    let mut texts: Vec<(PathBuf, String)> = Vec::new();
     let mut main_modules = BTreeSet::new();
     for d in 0..8 {
         let files = decl_files(d);
@@ -118,7 +126,10 @@ fn make_workspace(dir: &Path, p: &Placement) -> Ws {
                     }
                 }
             };
-            write_file(&root.join(name), content);
+            if on_disk {
+                write_file(&root.join(name), content);
+            }
+            texts.push((root.join(name), content.to_string()));
             if root == &main {
                 main_modules.insert(name.trim_end_matches(".lua").to_string());
             }
@@ -133,13 +144,49 @@ fn make_workspace(dir: &Path, p: &Placement) -> Ws {
         rc["runtime"] = json!({"special": {
             "my_require": "require", "my_type": "type", "my_assert": "assert", "my_error": "error", "my_setmetatable": "setmetatable", "my_none": "none"}});
     }
-    write_file(&main.join(".emmyrc.json"), &serde_json::to_string_pretty(&rc).unwrap());
-    Ws { main, main_modules }
+    if on_disk {
+        write_file(&main.join(".emmyrc.json"), &serde_json::to_string_pretty(&rc).unwrap());
+    }
+    // main-workspace files first, each root in name order (the order a directory walk of a fresh tree gives)
+    texts.sort_by_key(|(f, _)| (!f.starts_with(&main), f.clone()));
+    Ws { on_disk, files: texts, rc, main, main_modules }
 }
 
+/// On disk: the crate's own `load_workspace` (reads `.emmyrc.json`, walks the tree, loads the std library).
+/// In memory: the same registration calls `load_workspace` makes — configuration, workspace roots from
+/// `build_workspace_folders`, `update_files_by_path` — with the file texts handed over directly and WITHOUT
+/// the std library (nothing of it may be exported anyway; the on-disk cases keep checking that).
 fn load(ws: &Ws) -> EmmyLuaAnalysis {
-    emmylua_doc_cli::verif_api::load_workspace(ws.main.clone(), vec![ws.main.clone()], None, None, None)
-        .unwrap_or_else(|| die("load_workspace returned None"))
+    if ws.on_disk {
+        return emmylua_doc_cli::verif_api::load_workspace(ws.main.clone(), vec![ws.main.clone()], None, None, None)
+            .unwrap_or_else(|| die("load_workspace returned None"));
+    }
+    let emmyrc: Emmyrc = serde_json::from_value(ws.rc.clone()).unwrap_or_else(|e| die(&format!("emmyrc: {e}")));
+    // `pre_process_emmyrc` is skipped: the library path is already absolute and has no variables, and the
+    // pre-processor starts a `luarocks` process on every call (the on-disk cross-check compares the result)
+    let mut a = EmmyLuaAnalysis::new();
+    a.update_config(Arc::new(emmyrc));
+    let folders = build_workspace_folders(&[WorkspaceFolder::new(ws.main.clone(), false)], &a.emmyrc);
+    for w in &folders {
+        if w.is_library {
+            a.add_library_workspace(w);
+        } else {
+            a.add_main_workspace(w.root.clone());
+        }
+    }
+    a.update_files_by_path(ws.files.iter().map(|(f, t)| (f.clone(), Some(t.clone()))).collect());
+    a
+}
+
+/// the files of an on-disk workspace in the order the crate's own directory walk registers them
+fn collect_like_disk(ws: &Ws) -> Vec<(PathBuf, String)> {
+    let emmyrc: Emmyrc = serde_json::from_value(ws.rc.clone()).unwrap_or_else(|e| die(&format!("emmyrc: {e}")));
+    let folders = build_workspace_folders(&[WorkspaceFolder::new(ws.main.clone(), false)], &emmyrc);
+    emmylua_code_analysis::collect_workspace_files(&folders, &emmyrc, None, None)
+        .into_iter()
+        .map(|f| f.into_tuple())
+        .filter_map(|(p, t)| t.map(|t| (p, t)))
+        .collect()
 }
 
 fn export(a: &EmmyLuaAnalysis) -> String {
@@ -299,6 +346,9 @@ struct CaseOut {
     bin_distinct: usize,
     outcome: String,
     skipped_sites: Vec<String>,
+    /// on-disk cases: Some(detail) when the in-memory load (no std library) exports something else
+    mem_mismatch: Option<String>,
+    mem_checked: bool,
 }
 
 struct Opts<'a> {
@@ -307,12 +357,14 @@ struct Opts<'a> {
     max_perm_len: usize,
     /// extra in-process loads compared with the first one (fresh hasher instances)
     reloads: usize,
+    /// files on disk + the crate's `load_workspace` + std library (needed for the binary), or in memory
+    on_disk: bool,
 }
 
 /// the whole check of one workspace
 fn check_case(dir: &Path, p: &Placement, o: &Opts) -> CaseOut {
     let mut out = CaseOut::default();
-    let ws = make_workspace(dir, p);
+    let ws = make_workspace(dir, p, o.on_disk || o.binary.is_some());
     verif_hooks::clear_orders();
     let a1 = load(&ws);
     verif_hooks::clear_orders();
@@ -428,6 +480,23 @@ fn check_case(dir: &Path, p: &Placement, o: &Opts) -> CaseOut {
         }
     }
 
+    // on-disk cases validate the in-memory shortcut of the exhaustive phase: same tree, no std library,
+    // texts handed over directly — must export the same bytes once the list orders are pinned
+    if ws.on_disk {
+        // same files in the same registration order as the directory walk of `load_workspace`
+        let mut wm = make_workspace(dir, p, false);
+        wm.files = collect_like_disk(&wm);
+        let am = load(&wm);
+        verif_hooks::clear_orders();
+        let om = export(&am);
+        let cm = canon(&am, &om);
+        out.exports += 2;
+        out.mem_checked = true;
+        if cm != c1 {
+            out.mem_mismatch = Some(unowned(&c1, &cm, "on-disk load with std library vs in-memory load without").1);
+        }
+    }
+
     // the real binary, fresh processes (sampled, supplementary)
     let mut outcome = format!("types={} globals={} modules={}", lens[0], lens[1], lens[2]);
     if let Some(bin) = o.binary {
@@ -515,7 +584,7 @@ fn canonical_for(sig: &str) -> Vec<Placement> {
 fn fails_with(dir: &Path, p: &Placement, sig: &str, o: &Opts) -> Option<String> {
     let sampled = sig.starts_with("unowned-nondeterminism:");
     let with_bin = sig.starts_with("binary");
-    let o2 = Opts { binary: if with_bin { o.binary } else { None }, bin_runs: o.bin_runs, max_perm_len: o.max_perm_len, reloads: if sampled { 12 } else { 0 } };
+    let o2 = Opts { binary: if with_bin { o.binary } else { None }, bin_runs: o.bin_runs, max_perm_len: o.max_perm_len, reloads: if sampled { 12 } else { 0 }, on_disk: with_bin };
     check_case(dir, p, &o2).violations.into_iter().find(|(s, _)| s == sig).map(|(_, d)| d)
 }
 
@@ -571,7 +640,7 @@ pub fn replay(args: &Args, w: &Value, sig_hint: Option<&str>) -> Option<Violatio
     let base = work_dir(args, "c35");
     let p = placement_from_json(w).unwrap_or_else(|| die("C35 replay: witness has no decls"));
     let bin = real_bin("emmylua_doc_cli");
-    let o = Opts { binary: Some(&bin), bin_runs: 3, max_perm_len: 6, reloads: 12 };
+    let o = Opts { binary: Some(&bin), bin_runs: 3, max_perm_len: 6, reloads: 12, on_disk: true };
     let r = check_case(&base.join("replay"), &p, &o);
     let _ = std::fs::remove_dir_all(&base);
     let v = match sig_hint {
@@ -593,97 +662,175 @@ pub fn run(args: &Args) -> ! {
     let mut rep = Report::new("C35", "model_checking");
     let rad = radices();
     let total = mixed_total(&rad);
+    let thorough = args.tier == Tier::Thorough;
     // bound = number of declarations present, iterated upward
     let mut by_size: Vec<Vec<u64>> = vec![Vec::new(); 9];
     let mut buf = Vec::new();
-    let rich_all = args.tier == Tier::Thorough;
     for i in 0..total {
         decode_mixed(i, &rad, &mut buf);
-        let size = buf[..8].iter().filter(|&&x| x != 0).count();
-        // the rich configuration is orthogonal to the declarations: quick explores it for ≤ 1 and for all 8
-        // declarations, thorough everywhere
-        if buf[8] == 1 && !(rich_all || size <= 1 || size == 8) {
-            continue;
-        }
-        by_size[size].push(i);
+        by_size[buf[..8].iter().filter(|&&x| x != 0).count()].push(i);
     }
-    let max_size = args.extra_usize("decls").unwrap_or(8);
-    // process-level runs: quick = workspaces with ≤ 2 declarations and the all-in-main one; thorough = all
-    let bin_all = args.tier == Tier::Thorough;
+    let decode = |i: u64| -> Placement {
+        let mut dg = Vec::new();
+        decode_mixed(i, &rad, &mut dg);
+        let mut p = [0u8; 9];
+        for d in 0..9 {
+            p[d] = dg[d] as u8;
+        }
+        p
+    };
+    let max_size = args.extra_usize("decls").unwrap_or(8).min(8);
     let cache: Cache = Mutex::new(HashMap::new());
     let counters: Mutex<(u64, u64, u64, u64, u64, [usize; 3])> = Mutex::new((0, 0, 0, 0, 0, [0; 3]));
+    let mem_checks: Mutex<(u64, Vec<String>)> = Mutex::new((0, Vec::new()));
     let mut all = Stats::default();
+
+    let run_case = |p: &Placement, o: &Opts, dir: &Path, st: &mut Stats, sample: bool, label: &str| {
+        let r = match catch(|| check_case(dir, p, o)) {
+            Ok(r) => r,
+            Err(msg) => {
+                verif_hooks::clear_orders();
+                st.eval(true);
+                st.outcome("panic");
+                st.violation(Violation { signature: format!("panic:{}", panic_site(&msg)), witness: witness_json(p), detail: msg });
+                return;
+            }
+        };
+        let nontrivial = p[..8].iter().any(|&x| x != 0);
+        st.evaluations += r.states.max(1);
+        st.nontrivial += if nontrivial { r.states.max(1) } else { 0 };
+        st.outcome(&format!("{label}: {}", r.outcome));
+        {
+            let mut c = counters.lock().unwrap();
+            c.0 += r.states;
+            c.1 += r.exports;
+            c.2 += r.bin_runs;
+            c.3 += r.bin_ok;
+            c.4 += 1;
+            for s in 0..3 {
+                c.5[s] = c.5[s].max(r.lens[s]);
+            }
+        }
+        if r.mem_checked {
+            let mut m = mem_checks.lock().unwrap();
+            m.0 += 1;
+            if let Some(d) = &r.mem_mismatch {
+                m.1.push(format!("{}: {d}", witness_json(p)));
+            }
+        }
+        if sample {
+            st.sample(|| json!({"phase": label, "case": witness_json(p), "list_lengths": {"types": r.lens[0], "globals": r.lens[1], "modules": r.lens[2]}, "orders_exported": r.states, "binary_runs": r.bin_runs, "outcome": r.outcome}));
+        }
+        for (sig, _detail) in &r.violations {
+            // minimisation re-runs the case in memory (cheap); process-level signatures re-run the binary
+            let om = Opts { binary: o.binary, bin_runs: o.bin_runs, max_perm_len: o.max_perm_len, reloads: o.reloads, on_disk: false };
+            let (mp, md) = minimise(dir, p, sig, &om, &cache);
+            st.violation(Violation { signature: sig.clone(), witness: witness_json(&mp), detail: md });
+        }
+    };
+
+    // ---- phase 1 (deciding, in-process, in memory): every workspace × every seam order, bound iterated upward.
+    // Quick tier: the core (≤ 2 declarations) first, then the process-level samples, then bounds 3..8.
     let mut completed: Option<usize> = None;
     let mut workspaces_done = 0u64;
-    for size in 0..=max_size.min(8) {
-        let ids = &by_size[size];
-        let (st, ok) = par_range(ids.len() as u64, args.threads, &dl, |n, st| {
-            let mut dg = Vec::new();
-            decode_mixed(ids[n as usize], &rad, &mut dg);
-            let mut p = [0u8; 9];
-            for d in 0..9 {
-                p[d] = dg[d] as u8;
+    let mut phase1 = |from: usize, to: usize, all: &mut Stats, completed: &mut Option<usize>| {
+        for size in from..=to {
+            if size > 0 && *completed != Some(size - 1) {
+                return;
             }
-            let dir = base.join(format!("t{}", thread_slot()));
-            let with_bin = bin_all || size <= 2 || p[..8].iter().all(|&x| x == 1);
-            let o = Opts { binary: if with_bin { Some(&bin) } else { None }, bin_runs: 3, max_perm_len: 6, reloads: 1 };
-            let r = match catch(|| check_case(&dir, &p, &o)) {
-                Ok(r) => r,
-                Err(msg) => {
-                    verif_hooks::clear_orders();
-                    st.eval(true);
-                    st.outcome("panic");
-                    st.violation(Violation { signature: format!("panic:{}", panic_site(&msg)), witness: witness_json(&p), detail: msg });
-                    return;
-                }
-            };
-            st.evaluations += r.states.max(1);
-            st.nontrivial += if size > 0 { r.states.max(1) } else { 0 };
-            st.outcome(&r.outcome);
-            {
-                let mut c = counters.lock().unwrap();
-                c.0 += r.states;
-                c.1 += r.exports;
-                c.2 += r.bin_runs;
-                c.3 += r.bin_ok;
-                c.4 += 1;
-                for s in 0..3 {
-                    c.5[s] = c.5[s].max(r.lens[s]);
-                }
+            let ids = &by_size[size];
+            let (st, ok) = par_range(ids.len() as u64, args.threads, &dl, |n, st| {
+                let p = decode(ids[n as usize]);
+                let dir = base.join("mem");
+                let o = Opts { binary: None, bin_runs: 0, max_perm_len: 6, reloads: 2, on_disk: false };
+                run_case(&p, &o, &dir, st, n % 997 == 0, "in-memory");
+            });
+            all.merge(st);
+            if !ok {
+                return;
             }
-            if n % 211 == 0 {
-                st.sample(|| json!({"case": witness_json(&p), "list_lengths": {"types": r.lens[0], "globals": r.lens[1], "modules": r.lens[2]}, "orders_exported": r.states, "binary_runs": r.bin_runs, "outcome": r.outcome}));
-            }
-            for (sig, _detail) in &r.violations {
-                let (mp, md) = minimise(&dir, &p, sig, &o, &cache);
-                st.violation(Violation { signature: sig.clone(), witness: witness_json(&mp), detail: md });
-            }
-        });
-        all.merge(st);
-        if !ok {
-            break;
+            *completed = Some(size);
+            workspaces_done += ids.len() as u64;
         }
-        completed = Some(size);
-        workspaces_done += ids.len() as u64;
+    };
+    let core = if thorough { max_size } else { max_size.min(2) };
+    phase1(0, core, &mut all, &mut completed);
+
+    // ---- phase 2 (process level, on disk, std library loaded; sampled, supplementary)
+    // quick: a fixed set of 6 workspaces × 2 fresh processes; thorough: every workspace × 3, bound upward
+    let mk = |v: [u8; 9]| -> Placement { v };
+    let fixed: Vec<Placement> = vec![
+        mk([0, 0, 0, 0, 0, 0, 0, 0, 0]),
+        mk([1, 1, 1, 1, 1, 1, 1, 1, 0]),
+        mk([1, 1, 1, 1, 1, 1, 1, 1, 1]),
+        mk([2, 2, 2, 2, 2, 2, 2, 2, 0]),
+        mk([1, 3, 2, 1, 2, 1, 1, 2, 0]),
+        mk([1, 0, 1, 0, 0, 0, 0, 0, 0]),
+    ];
+    let mut proc_done = 0u64;
+    let mut proc_target = 0u64;
+    let mut proc_complete = true;
+    if completed.is_some() {
+        let groups: Vec<Vec<Placement>> = if thorough {
+            (0..=max_size)
+                .map(|sz| by_size[sz].iter().map(|&i| decode(i)).filter(|p| p[8] == 0 || sz <= 1 || sz == 8).collect())
+                .collect()
+        } else {
+            vec![fixed.clone()]
+        };
+        let runs = if thorough { 3 } else { 2 };
+        for g in &groups {
+            proc_target += g.len() as u64;
+        }
+        for g in &groups {
+            let (st, ok) = par_range(g.len() as u64, args.threads, &dl, |n, st| {
+                let p = g[n as usize];
+                let dir = base.join(format!("d{}", thread_slot()));
+                let o = Opts { binary: Some(&bin), bin_runs: runs, max_perm_len: 6, reloads: 1, on_disk: true };
+                run_case(&p, &o, &dir, st, thorough && n % 211 == 0 || !thorough, "on-disk+binary");
+            });
+            let n_done = st.outcomes.values().sum::<u64>();
+            all.merge(st);
+            proc_done += n_done;
+            if !ok {
+                proc_complete = false;
+                break;
+            }
+        }
+    } else {
+        proc_complete = false;
     }
+    if core < max_size {
+        phase1(core + 1, max_size, &mut all, &mut completed);
+    }
+    drop(phase1);
     let c = counters.into_inner().unwrap();
-    rep.exhaustive = completed == Some(max_size.min(8)) && max_size >= 8;
-    rep.rule = "every declaration placed in the main workspace occurs exactly once (with its kind) in its list (types/globals/modules) and nothing declared only in the library root or the std library occurs; the exported bytes are identical for every iteration order of the three hash collections the lists are built from, for a second load in the same process with those orders pinned, and the real binary's output in fresh processes is one of the outputs reachable through the seams".into();
+    let mem = mem_checks.into_inner().unwrap();
+    if let Some(first) = mem.1.first() {
+        rep.machinery_error = Some(format!("C35: the in-memory load used by the exhaustive phase does not export what the on-disk load exports ({} of {} cases), e.g. {first}", mem.1.len(), mem.0));
+    }
+    rep.exhaustive = completed == Some(8) && proc_complete;
+    rep.rule = "every declaration placed in the main workspace occurs exactly once (with its kind) in its list (types/globals/modules) and nothing declared only in the library root or the std library occurs; the exported bytes are identical for every iteration order of the three hash collections the lists are built from, for further loads in the same process with those orders pinned, and the real binary's output in fresh processes is one of the outputs reachable through the seams".into();
     rep.bounds = json!({
         "declarations": DECLS,
         "placements": "absent | main | lib (split class also: one half each)",
-        "configurations": if rich_all { "plain and rich .emmyrc.json for every workspace" } else { "plain .emmyrc.json everywhere; rich (8 severity overrides, 6 special symbols) for workspaces with ≤ 1 or all 8 declarations" },
-        "workspaces_total": by_size.iter().map(|v| v.len()).sum::<usize>(),
+        "configurations": "plain and rich .emmyrc.json (8 severity overrides, 6 special symbols) for every workspace",
+        "workspaces_total": total,
         "bound": "number of declarations present, iterated 0..8",
         "largest_bound_completed": completed,
+        "core_bound": "≤ 2 declarations (every placement, both configurations, every seam order) runs before anything else",
+        "core_complete": completed.is_some_and(|c| c >= 2.min(max_size)),
         "workspaces_completed": workspaces_done,
-        "seam_orders": "full product of all k! orders of the three sites",
+        "seam_orders": "full product of all k! orders of the three sites, every workspace",
         "max_list_lengths_seen": {"types": c.5[0], "globals": c.5[1], "modules": c.5[2]},
-        "process_level": if bin_all { "3 fresh processes for every workspace" } else { "3 fresh processes for every workspace with ≤ 2 declarations and for the one with all 8 in the main workspace" },
+        "process_level": if thorough { "every workspace on disk through the crate's load_workspace (std library loaded) + 3 fresh processes of the real binary (rich configuration for ≤ 1 or all 8 declarations)" } else { "sampled: a fixed set of 6 workspaces (empty; all in main, plain and rich configuration; all in the library; mixed with the split class straddling; class+enum) on disk through the crate's load_workspace (std library loaded) + 2 fresh processes of the real binary each" },
+        "process_level_workspaces_completed": proc_done,
+        "process_level_workspaces_targeted": proc_target,
     });
     rep.assumptions = vec![
-        "the order of each exported list is decided only at the three seams; this is checked, not assumed: a second in-process load and the fresh-process outputs must be reachable with the seams pinned/permuted, otherwise `unowned-nondeterminism` is reported".into(),
-        "the fresh-process comparison samples hash seeds (3 processes per workspace); the deciding step is the exhaustive permutation of the seams".into(),
+        "the exhaustive phase builds each workspace in memory with the registration calls of the crate's load_workspace (configuration, build_workspace_folders, add_main/library_workspace, update_files_by_path) but without reading the disk and without the std library; every on-disk case re-checks that this gives the same bytes as load_workspace with the std library (a mismatch is a machinery error), and the on-disk cases are the ones that show std-library declarations are not exported".into(),
+        "the order of each exported list is decided only at the three seams; this is checked, not assumed: further in-process loads (fresh hasher instances) and the fresh-process outputs must be reachable with the seams pinned/permuted, otherwise `unowned-nondeterminism` is reported".into(),
+        "the reload and fresh-process comparisons sample hash seeds; the deciding step is the exhaustive permutation of the seams".into(),
         "a main-workspace file without a return statement is allowed but not required to be listed as a module (the statement does not say)".into(),
     ];
     rep.set("states", json!(c.0));
@@ -691,6 +838,7 @@ pub fn run(args: &Args) -> ! {
     rep.set("traces_validated_against_impl", json!(c.3));
     rep.set("binary_runs", json!(c.2));
     rep.set("workspaces", json!(c.4));
+    rep.set("in_memory_vs_on_disk_checks", json!({"cases": mem.0, "mismatches": mem.1.len()}));
     let _ = std::fs::remove_dir_all(&base);
     rep.finish(args, all)
 }
